@@ -5,10 +5,10 @@ Driver glue for C12. Case fields: `op  state  k  errno`.
 
 * `k = ff` (trace case): the model runs the operation's program without a fault on the prepared state and answers
   `result | set of libc-level calls | prepared state | final state` in the harness's canonical form.
-* otherwise (fault case): the observation names the real call that was failed as `class:path:fault-free result`
-  (taken from the real trace, so call order is never compared). The model locates the primitive calls of its own
-  fault-free run that issue such a libc call, fails each of them with the errno and answers `err`, `ok:same` or `ok:diff`
-  (final state against its fault-free final state). The spec judges the observation by the property itself.
+* otherwise (fault case): the observation names the real call that was failed as `class:path:fault-free result` plus
+  the number `occ` of earlier std calls with the same key (taken from the real trace, so call order is never compared).
+  The model locates the `occ`-th primitive call of its own fault-free run that issues such a libc call, fails it with
+  the errno and answers `err`, `ok:same` or `ok:diff` (final state against its fault-free final state, incl. directory modes). The spec judges the observation by the property itself.
 -/
 namespace CnbVerif.DriverC12
 open CnbVerif CnbVerif.FsProg
@@ -33,9 +33,10 @@ def contentToken : Content → String
   | .ltoml .broken => "lt:B"
   | .doc n => "doc:" ++ n
 
-def renderFS (fs : FS) : String :=
+/-- canonical snapshot; `modes` adds the directory permission bits (compared only between two model states) -/
+def renderFS (fs : FS) (modes : Bool := false) : String :=
   joinWith "," (sortBy (fun a b => decide (a < b)) (fs.map (fun e => match e.2 with
-    | .dir => "D " ++ pathStr e.1
+    | .dir m => "D " ++ pathStr e.1 ++ (if modes then " " ++ toString m else "")
     | .file c => "F " ++ pathStr e.1 ++ " " ++ contentToken c)))
 
 def dedupSorted : List String → List String
@@ -51,7 +52,7 @@ def parseErrno (s : String) : Option Errno :=
   if s = "EIO" then some .eio else if s = "EACCES" then some .eacces else if s = "ENOSPC" then some .enospc
   else if s = "ENOENT" then some .enoent else none
 
-/-- positions of the model's fault-free run whose primitive issues the given libc call -/
+/-- positions of the model's fault-free run whose primitive issues the given libc call, in order -/
 def positionsOf (log : List (Ev FS)) (key : String) : List Nat :=
   (List.range log.length).filter (fun j => match log[j]? with
     | some ev => ((libcCalls ev.prim ev.pre).map callKey).contains key
@@ -59,9 +60,7 @@ def positionsOf (log : List (Ev FS)) (key : String) : List Nat :=
 
 def predict (prog : Prog) (fs : FS) (ffFinal : String) (j : Nat) (e : Errno) : String :=
   let r := exec fsSem (some (j, e)) prog fs
-  if !r.out.isOk then "err" else if renderFS r.st = ffFinal then "ok:same" else "ok:diff"
-
-def dedup (l : List String) : List String := l.foldl (fun acc x => if acc.contains x then acc else acc ++ [x]) []
+  if !r.out.isOk then "err" else if renderFS r.st true = ffFinal then "ok:same" else "ok:diff"
 
 def handle (fields : List String) (obs : String) : String × String :=
   match fields with
@@ -81,12 +80,12 @@ def handle (fields : List String) (obs : String) : String × String :=
           ((if ff.out.isOk then "ok" else "err") ++ "|" ++ callSet ff.log ++ "|" ++ renderFS fs0 ++ "|" ++ renderFS ff.st, "ok")
         else
           match k.toNat?, parseErrno errno, obs.splitOn "|" with
-          | some _, some e, [seen, key] =>
+          | some _, some e, [seen, key, occ] =>
+            -- the occ-th model call that issues this libc call (occ counted by the harness over the real trace)
             let model :=
-              match dedup ((positionsOf ff.log key).map (fun j => predict prog fs1 (renderFS ff.st) j e)) with
-              | [] => "unknown-call|" ++ key
-              | [p] => p ++ "|" ++ key
-              | ps => "ambiguous(" ++ String.intercalate "/" ps ++ ")|" ++ key
+              match occ.toNat?.bind (fun i => (positionsOf ff.log key)[i]?) with
+              | none => "unknown-call|" ++ key ++ "|" ++ occ
+              | some j => predict prog fs1 (renderFS ff.st true) j e ++ "|" ++ key ++ "|" ++ occ
             let verdict :=
               match Spec.Fault.Seen.ofString seen, key.splitOn ":" with
               | some s, cls :: _ => Spec.Fault.verdict errno cls s
